@@ -137,6 +137,7 @@ type H2End struct {
 	pendStream      map[uint32]int // received, not yet granted back
 	pendConn        int
 	NoAutoGrant     bool
+	NeverGrant      bool // with NoAutoGrant: no grant actions are offered either (credit only through GrantExtra)
 
 	opened     map[uint32]bool // streams opened by the client as seen by this end
 	rstSeen    map[uint32]bool
@@ -243,7 +244,7 @@ func (e *H2End) actions(add func(kernel.Action)) {
 		op := e.Script[e.next]
 		add(kernel.Action{Key: fmt.Sprintf("%s op#%d %s s%d", e.Name, e.next, op.Kind, op.Stream), W: 3, Class: kernel.Actor, Do: e.doNext})
 	}
-	if !e.NoAutoGrant || e.closedSelf || e.EOF || e.RST {
+	if !e.NoAutoGrant || e.NeverGrant || e.closedSelf || e.EOF || e.RST {
 		return
 	}
 	if e.pendConn > 0 {
